@@ -15,7 +15,7 @@
      update: keys distinct, coordinates in shape, row ids increasing and in range, no cell assigned two values;
      union_update: the operand's entries do not contradict the receiver's (a well-formed result exists);
      intersection/difference_update: distinct keys;   filtered: mask of the receiver's length;
-     sliced: one order per higher axis, ints and lists of DISTINCT columns within the extent;
+     sliced: no argument, or one order per higher axis, ints and lists of DISTINCT columns within the extent;
      collapsed: 2-D receiver, non-empty precedence list of DISTINCT values within a NumPy integer dtype;
      column_stack: every input well-formed, 1-D or 2-D, same row count;   all others: none.
    "Operands other than the receiver are unchanged" and "copies share no storage" are facts about the heap and
